@@ -55,6 +55,16 @@ def hms(s):
     return "%02d:%02d:%02d" % (s // 3600, s // 60 % 60, s % 60)
 
 
+def mo_unit(rng, im):
+    """a month count written in months, or (where it divides) in quarters or years"""
+    forms = ["%dmo" % im]
+    if im % 3 == 0:
+        forms += ["%dq" % (im // 3)] * 2
+    if im % 12 == 0:
+        forms += ["%dy" % (im // 12)] * 2
+    return rng.choice(forms)
+
+
 def scenarios(rng, quick):
     sc = []
     n = 150 if quick else 40000
@@ -129,7 +139,7 @@ def scenarios(rng, quick):
         if lm == 2 and ld > 28:
             ld = 28
         l = ldn(ly, lm, ld)
-        unit = "%dmo" % im if im % 12 or rng.random() < 0.5 else "%dy" % (im // 12)
+        unit = mo_unit(rng, im)
         incs = unit + ("%dd" % idd if idd else "")
         skip = rng.choice([[], [], [6, 7], [rng.randrange(1, 8)], sorted(rng.sample(range(1, 8), 2))])
         args = ["%04d-%02d-%02d" % (y, m, d), incs, fmtd(l)] + sum((["-s", WDN[w]] for w in skip), [])
@@ -175,7 +185,7 @@ def scenarios(rng, quick):
         fs, ls = rng.choice([0, 36000, 43200, 86399]), rng.choice([0, 36000, 43200, 86399])
         l = ldn(ly, lm, ld)
         leff = l if (fs <= ls if im > 0 else fs >= ls) else (l - 1 if im > 0 else l + 1)
-        unit = "%dmo" % im if im % 12 or rng.random() < 0.5 else "%dy" % (im // 12)
+        unit = mo_unit(rng, im)
         skip = rng.choice([[], [], [6, 7], [rng.randrange(1, 8)]])
         args = ["%04d-%02d-%02dT%s" % (y, m, d, hms(fs)), unit, "%sT%s" % (fmtd(l), hms(ls))] + sum((["-s", WDN[w]] for w in skip), [])
         sc.append(dict(kind="mon", args=args, first=[y, m, d], inc=[im, 0], last=leff, skip=skip, cfl=False, wd0=5, dec="dtmon", tod=fs))
@@ -205,7 +215,7 @@ def scenarios(rng, quick):
         if fy < 1602:
             continue
         fd = rng.choice([1, 1, 15, 27])
-        unit = "%dmo" % im if im % 12 or rng.random() < 0.5 else "%dy" % (im // 12)
+        unit = mo_unit(rng, im)
         args = ["--compute-from-last", "%04d-%02d-%02d" % (fy, fm, fd), unit, "%04d-%02d-%02d" % (ly, lm, ld)]
         sc.append(dict(kind="mon", args=args, first=[ly, lm, ld], inc=[-im, 0], last=ldn(fy, fm, fd), skip=[], cfl=False, wd0=5, dec="date", rev=True))
     # times of day around the clock
